@@ -407,3 +407,104 @@ theorem relStep_model (hf : PyVal → String) (hinj : ∀ a b, (hf a == hf b) = 
           simp only [Option.map_none, absChecker, encMemo, List.map_append, List.map_cons, List.map_nil, Except.map]
 
 end Rbacx.PyR
+
+namespace Rbacx.PyR
+open PyVal Rbacx.PyE
+
+/-! ### whole condition trees: a predicate on every sub-value of a document, congruence of `all(…)` / `any(…)` -/
+
+mutual
+/-- `P` holds of the value and of every value inside it (list items, dict values), at any depth -/
+def allSub (P : PyVal → Prop) : PyVal → Prop
+  | .list xs => P (.list xs) ∧ allSubL P xs
+  | .dict kvs => P (.dict kvs) ∧ allSubD P kvs
+  | .none => P .none
+  | .bool b => P (.bool b)
+  | .int n => P (.int n)
+  | .float f => P (.float f)
+  | .str s => P (.str s)
+  | .dt a m => P (.dt a m)
+def allSubL (P : PyVal → Prop) : List PyVal → Prop
+  | [] => True
+  | x :: xs => allSub P x ∧ allSubL P xs
+def allSubD (P : PyVal → Prop) : List (String × PyVal) → Prop
+  | [] => True
+  | (_, v) :: kvs => allSub P v ∧ allSubD P kvs
+end
+
+theorem allSub_self {P : PyVal → Prop} {v : PyVal} (h : allSub P v) : P v := by
+  cases v <;> simp only [allSub] at h <;> first | exact h | exact h.1
+
+theorem allSubL_mem {P : PyVal → Prop} {xs : List PyVal} (h : allSubL P xs) {x : PyVal} (hx : x ∈ xs) : allSub P x := by
+  induction xs with
+  | nil => cases hx
+  | cons y ys ih =>
+    simp only [allSubL] at h
+    cases hx with
+    | head => exact h.1
+    | tail _ h' => exact ih h.2 h'
+
+theorem allSubD_lookup {P : PyVal → Prop} {kvs : List (String × PyVal)} (h : allSubD P kvs) {k : String} {v : PyVal}
+    (hk : lookup k kvs = some v) : allSub P v := by
+  induction kvs with
+  | nil => simp [lookup] at hk
+  | cons kv kvs ih =>
+    obtain ⟨k', w⟩ := kv
+    simp only [allSubD] at h
+    simp only [lookup] at hk
+    split at hk
+    · cases hk; exact h.1
+    · exact ih h.2 hk
+
+theorem allSub_get {P : PyVal → Prop} {kvs : List (String × PyVal)} (h : allSub P (.dict kvs)) {k : String}
+    (hk : PyVal.hasKey (.dict kvs) k = true) : allSub P ((PyVal.dict kvs).get k) := by
+  simp only [PyVal.hasKey] at hk
+  obtain ⟨v, hv⟩ := Option.isSome_iff_exists.mp hk
+  simp only [allSub] at h
+  simp only [PyVal.get, hv, Option.getD_some]
+  exact allSubD_lookup h.2 hv
+
+/-- what an iteration over a sub-value yields: items of a list are sub-values, keys of a dict / characters of a str are not dicts -/
+theorem allSub_iter {P : PyVal → Prop} {v : PyVal} (h : allSub P v) {x : PyVal} (hx : x ∈ Rbacx.Py.iter v) :
+    x.isDict = false ∨ allSub P x := by
+  cases v with
+  | list xs => simp only [allSub] at h; exact Or.inr (allSubL_mem h.2 hx)
+  | dict kvs =>
+    simp only [Rbacx.Py.iter, List.mem_map] at hx
+    obtain ⟨_, _, rfl⟩ := hx; exact Or.inl rfl
+  | str s =>
+    simp only [Rbacx.Py.iter, List.mem_map] at hx
+    obtain ⟨_, _, rfl⟩ := hx; exact Or.inl rfl
+  | _ => simp [Rbacx.Py.iter] at hx
+
+mutual
+theorem allSub_mono {P Q : PyVal → Prop} (hpq : ∀ v, P v → Q v) : ∀ v, allSub P v → allSub Q v
+  | .list xs, h => by simp only [allSub] at h ⊢; exact ⟨hpq _ h.1, allSubL_mono hpq xs h.2⟩
+  | .dict kvs, h => by simp only [allSub] at h ⊢; exact ⟨hpq _ h.1, allSubD_mono hpq kvs h.2⟩
+  | .none, h => by simp only [allSub] at h ⊢; exact hpq _ h
+  | .bool _, h => by simp only [allSub] at h ⊢; exact hpq _ h
+  | .int _, h => by simp only [allSub] at h ⊢; exact hpq _ h
+  | .float _, h => by simp only [allSub] at h ⊢; exact hpq _ h
+  | .str _, h => by simp only [allSub] at h ⊢; exact hpq _ h
+  | .dt _ _, h => by simp only [allSub] at h ⊢; exact hpq _ h
+theorem allSubL_mono {P Q : PyVal → Prop} (hpq : ∀ v, P v → Q v) : ∀ xs, allSubL P xs → allSubL Q xs
+  | [], _ => by simp only [allSubL]
+  | x :: xs, h => by simp only [allSubL] at h ⊢; exact ⟨allSub_mono hpq x h.1, allSubL_mono hpq xs h.2⟩
+theorem allSubD_mono {P Q : PyVal → Prop} (hpq : ∀ v, P v → Q v) : ∀ kvs, allSubD P kvs → allSubD Q kvs
+  | [], _ => by simp only [allSubD]
+  | (_, v) :: kvs, h => by simp only [allSubD] at h ⊢; exact ⟨allSub_mono hpq v h.1, allSubD_mono hpq kvs h.2⟩
+end
+
+theorem allE_congr (xs : List PyVal) (f g : PyVal → Res) (h : ∀ x ∈ xs, f x = g x) : allE xs f = allE xs g := by
+  induction xs with
+  | nil => rfl
+  | cons x xs ih =>
+    simp only [allE, h x (List.mem_cons_self ..), ih fun y hy => h y (List.mem_cons_of_mem _ hy)]
+
+theorem anyE_congr (xs : List PyVal) (f g : PyVal → Res) (h : ∀ x ∈ xs, f x = g x) : anyE xs f = anyE xs g := by
+  induction xs with
+  | nil => rfl
+  | cons x xs ih =>
+    simp only [anyE, h x (List.mem_cons_self ..), ih fun y hy => h y (List.mem_cons_of_mem _ hy)]
+
+end Rbacx.PyR
